@@ -71,7 +71,7 @@ def case_equivariance(cfg, g_index, seed, steps=1):
     real_t = np.dtype(c["dtype"]).type
     eps = float(np.finfo(real_t).eps)
     c = {k: v for k, v in c.items()}
-    margin = simcfg.step_reach(c) * steps + c["width"] + 1
+    margin = simcfg.step_reach(c) * steps + c["width"]  # exactly the reach of the step(s): the tightest admissible support
     base = 2 * margin + 3
     shape = tuple(base + i for i in range(d))
     c["shape"] = shape
